@@ -76,6 +76,9 @@ FOURTH_ROUND_MISSES = {
  "C20-10": "missed: break_tie was only called with a sorted array and 'random' -> also 'first' / 'accept' on an unsorted array",
  "C20-11": "missed: positivity_graph was only called on exact matrices -> also on a matrix with 1e-17 residues and a negative zero",
 }
+SIXTH_ROUND_MISSES = {
+ "C06-16": "missed: no matrix had entries below the routine's own 1e-9 threshold next to large ones -> `light_overlap`: heavy dyadic permutations plus two or three permutations of weight 2^-30 that share cells (the shared cells reach 1e-9, the others do not)",
+}
 FIFTH_ROUND_MISSES = {
  "C01-13": "missed: the largest market had 170 residents -> one market with 258..400 residents per batch in which nearly everybody applies to the same small hospital first (`popular_market`)",
  "C02-13": "missed: capacities were small -> 5-8% of the instances give one hospital the capacity sys.maxsize ('unlimited'), stored as int64 / uint64",
@@ -120,7 +123,7 @@ for d in sorted(glob.glob(os.path.join(VERIF, "seeded", "C*-*"))):
         fe = m.get("first_evaluation") or {}
         fq = (fe.get("caught_by_quick") or m["caught_by_quick"]).get(p)
         fa = (fe.get("caught_by_any_tier") or m["caught_by_any_tier"]).get(p)
-        first = SECOND_ROUND_MISSES.get(mid) or THIRD_ROUND_MISSES.get(mid) or FOURTH_ROUND_MISSES.get(mid) or FIFTH_ROUND_MISSES.get(mid) or ("caught by quick" if fq else ("caught by thorough only" if fa else "missed"))
+        first = SECOND_ROUND_MISSES.get(mid) or THIRD_ROUND_MISSES.get(mid) or FOURTH_ROUND_MISSES.get(mid) or FIFTH_ROUND_MISSES.get(mid) or SIXTH_ROUND_MISSES.get(mid) or ("caught by quick" if fq else ("caught by thorough only" if fa else "missed"))
     else:
         first = FIRST_ROUND_MISSES.get(mid, "caught by quick")
     rows.append(f"| {mid} | {m.get('round', 1)} | {summ} | {needs} | {now} | {first} |")
